@@ -180,6 +180,9 @@ def bounded(ctx):
             continue
         site, a, k = be.enzyme_geometry(cls.cutter)
         members = be.class_records(cls, rng, count=2)
+        # every rotation of one member: the origin on every boundary of the structure (both overhangs, both sites)
+        for r_ in range(1, len(members[0])):
+            check(cls, members[0][r_:] + members[0][:r_], "member rotated")
         for s in members:
             check(cls, s, "member")
             # near misses: every position of both overhangs, one other letter
@@ -213,6 +216,8 @@ def bounded(ctx):
                 members = be.class_records(cls, rng, count=2)
                 for s in members + be.class_records(generic_for(cls), rng, count=2):
                     check(cls, s, "user signature %r" % (sig,))
+                for r_ in range(1, len(members[0])):
+                    check(cls, members[0][r_:] + members[0][:r_], "user signature %r, member rotated" % (sig,))
                 # echoes: the letters just before / after each signature repeat its first / last letter (an occurrence of
                 # the signature shifted by one or two letters overlaps the real one)
                 for s in [members[0], members[0][-7:] + members[0][:-7], members[0][-11:] + members[0][:-11]]:
@@ -221,6 +226,8 @@ def bounded(ctx):
                         continue
                     for which_ in ("overhang_start", "overhang_end"):
                         o_ = g_[which_]
+                        if len(o_) != k:
+                            continue      # (a wrong overhang of the generic class is reported by check() above)
                         pos_ = (s + s).upper().find(o_.upper())
                         for shift_ in (1, 2):
                             before = list(s)
